@@ -152,9 +152,12 @@ class DictWriter:
                     tag = getattr(prop, attr)
                     # Tuples have to be serialized as lists to avoid
                     # nasty python code annotations when writing to yaml.
+                    # A numeric zero (e.g. an uncertainty of 0) is a set value.
+                    is_zero = isinstance(tag, (int, float)) and \
+                        not isinstance(tag, bool) and tag == 0
                     if isinstance(tag, tuple):
                         prop_dict[attr] = list(tag)
-                    elif (tag == []) or tag:  # Even if 'values' is empty, allow '[]'
+                    elif (tag == []) or tag or is_zero:  # Even if 'values' is empty, allow '[]'
                         # Custom odML tuples require special handling.
                         if attr == "values" and prop.dtype and \
                                 prop.dtype.endswith("-tuple") and prop.values:
